@@ -65,7 +65,7 @@ const runs = 4 // Go randomises map iteration per range loop: repeated runs expo
 func atoms(l []string) []Sx {
 	r := make([]Sx, len(l))
 	for i, s := range l {
-		r[i] = A(s)
+		r[i] = A(esc(s))
 	}
 	return r
 }
@@ -81,7 +81,7 @@ type spec struct {
 }
 
 func (s spec) itemSx(id int) Sx {
-	return T("it", I(id), A(s.name), T("p", atoms(s.prov)...), T("r", atoms(s.req)...))
+	return T("it", I(id), A(esc(s.name)), T("p", atoms(s.prov)...), T("r", atoms(s.req)...))
 }
 
 func specOf(it hercules.PipelineItem) spec {
@@ -246,7 +246,7 @@ func emitSynth(c *Config, kind string, items []spec) {
 func parseStrings(s Sx) []string {
 	var r []string
 	for _, a := range s.Args() {
-		r = append(r, a.Atom)
+		r = append(r, unesc(a.Atom))
 	}
 	return r
 }
@@ -255,7 +255,7 @@ func parseItems(f Sx) []spec {
 	var items []spec
 	for _, it := range f.Args() {
 		a := it.Args() // id name (p ..) (r ..)
-		items = append(items, spec{name: a[1].Atom, prov: parseStrings(a[2]), req: parseStrings(a[3])})
+		items = append(items, spec{name: unesc(a[1].Atom), prov: parseStrings(a[2]), req: parseStrings(a[3])})
 	}
 	return items
 }
@@ -310,12 +310,12 @@ func (t *regTable) sx() Sx {
 	var prov, ent []Sx
 	for _, k := range t.keys {
 		if len(t.provided[k]) > 0 {
-			prov = append(prov, T(k, atoms(t.provided[k])...))
+			prov = append(prov, T(esc(k), atoms(t.provided[k])...))
 		}
 	}
 	for _, n := range t.names {
 		e := t.entries[n]
-		ent = append(ent, T(n, T("p", atoms(e.prov)...), T("r", atoms(e.req)...), T("f", atoms(e.feats)...)))
+		ent = append(ent, T(esc(n), T("p", atoms(e.prov)...), T("r", atoms(e.req)...), T("f", atoms(e.feats)...)))
 	}
 	return T("reg", T("prov", prov...), T("ent", ent...))
 }
@@ -324,9 +324,9 @@ func (t *regTable) sx() Sx {
 
 func (s spec) deploySx() Sx {
 	if s.real {
-		return T("d", A("real"), A(s.name))
+		return T("d", A("real"), A(esc(s.name)))
 	}
-	return T("d", A("synth"), A(s.name), T("p", atoms(s.prov)...), T("r", atoms(s.req)...), T("f", atoms(s.feats)...), B(s.featd))
+	return T("d", A("synth"), A(esc(s.name)), T("p", atoms(s.prov)...), T("r", atoms(s.req)...), T("f", atoms(s.feats)...), B(s.featd))
 }
 
 func parseDeploys(f Sx) []spec {
@@ -334,9 +334,9 @@ func parseDeploys(f Sx) []spec {
 	for _, d := range f.Args() {
 		a := d.Args()
 		if a[0].Atom == "real" {
-			res = append(res, spec{name: a[1].Atom, real: true})
+			res = append(res, spec{name: unesc(a[1].Atom), real: true})
 		} else {
-			res = append(res, spec{name: a[1].Atom, prov: parseStrings(a[2]), req: parseStrings(a[3]),
+			res = append(res, spec{name: unesc(a[1].Atom), prov: parseStrings(a[2]), req: parseStrings(a[3]),
 				feats: parseStrings(a[4]), featd: a[5].Atom == "1"})
 		}
 	}
@@ -735,12 +735,22 @@ func main() {
 	}
 	dagPath = fmt.Sprintf("%s/c10-dag-%d.dot", dir, os.Getpid())
 	defer os.Remove(dagPath)
+	saveRegistry()
 	reg := readRegistry()
 	if c.Replay != "" {
 		for _, cs := range c.ReplayCases() {
 			kind, _ := cs.Field("kind")
 			k := kind.Args()[0].Atom
-			if f, ok := cs.Field("ops"); ok {
+			if w, ok := cs.Field("world"); ok {
+				// round 4: the case carries its own registry (the list of registrations, in order)
+				feats, _ := cs.Field("feats")
+				f, _ := cs.Field("deploys")
+				if o, isSeq := cs.Field("ops"); isSeq {
+					emitSeqWorld(c, strings.TrimSuffix(k, "-chained"), parseWorld(w), parseOps(o))
+				} else {
+					emitWorld(c, strings.TrimSuffix(k, "-chained"), parseWorld(w), parseStrings(feats), parseDeploys(f))
+				}
+			} else if f, ok := cs.Field("ops"); ok {
 				emitSeq(c, k, reg, parseOps(f))
 			} else if f, ok := cs.Field("deploys"); ok {
 				feats, _ := cs.Field("feats")
@@ -760,4 +770,5 @@ func main() {
 	twoPaths(c)
 	nameCollide(c)
 	sequencesInit(c, reg)
+	round4(c)
 }
